@@ -6,6 +6,7 @@ import Feox.Drv.Proto
 import Feox.Drv.Conc
 import Feox.Drv.Pin
 import Feox.Drv.InFlight
+import Feox.Drv.Range
 /-! `feoxdrv` — the Lean side of the correspondence check: reads one operation per line on
 stdin, runs the executable models, prints one answer line per input line.  Imports models
 only (no Mathlib, no proof files), so it links as a native executable. -/
@@ -19,6 +20,7 @@ structure Drv where
   conc : Drv.ConcDrv.St := {}
   pin : Conc.Pin.State := {}
   ifl : Conc.InFlight.Set := {}
+  scan : Drv.RangeDrv.St := {}
 
 def stepLine (d : Drv) (line : String) : IO (Drv × String) := do
   match (line.trimAscii.toString.splitOn " ").filter (· ≠ "") with
@@ -45,6 +47,10 @@ def stepLine (d : Drv) (line : String) : IO (Drv × String) := do
   | "ifl" :: rest =>
     match Drv.InFlightDrv.handle d.ifl rest with
     | some (s, out) => pure ({ d with ifl := s }, out)
+    | none => pure (d, "bad-op")
+  | "scan" :: rest =>
+    match Drv.RangeDrv.handle d.scan rest with
+    | some (s, out) => pure ({ d with scan := s }, out)
     | none => pure (d, "bad-op")
   | "shards" :: rest =>
     match Drv.ProtoDrv.handleShards rest with
